@@ -197,6 +197,9 @@ class Interp:
             elts = [self.ev(e, p) for e in node.elts]
             return V('coll', '[' + ', '.join(e.key for e in elts) + ']', ('display', tuple(elts)))
         if isinstance(node, ast.Dict):
+            if node.keys and all(isinstance(k, ast.Constant) and isinstance(k.value, str) for k in node.keys):
+                items = {k.value: self.ev(v, p) for k, v in zip(node.keys, node.values)}     # same thing as dict(a=..., b=...)
+                return V('dict', 'dict(' + ', '.join(f'{k}={v.key}' for k, v in items.items()) + ')', (items, False))
             ks = [self.ev(k, p).key if k is not None else '**' for k in node.keys]
             vs = [self.ev(v, p) for v in node.values]
             return V('coll', '{' + ', '.join(f'{k}: {v.key}' for k, v in zip(ks, vs)) + '}', ('display', tuple(vs)))
